@@ -5,7 +5,8 @@
     num <f> | var <v> <sel> | par <q> <sel> | prev <v> <sel> | add e e | sub e e | mul e e | div e e | neg e
     | powi e <n> | sin e | cos e | exp e | ln e | abs e | sign e | heav e | not e | lt e e | gt e e | and e e | or e e
     | in3 e e e | sat e e e | min e e | awu e e e e
-  sel ::= w | i <int> | s <a|none> <b|none>
+    | matvec <q> <cols> e
+  sel ::= w | i <int> | s <a|none> <b|none> | st <a|none> <b|none> <step> | pk <n> <k…>
   answers: F → `ok <vals…>`,  J → `ok <rows> <cols> <row-major vals…>`,  errors → `err <kind>`
 -/
 import SolverzModel.Core.Lang
@@ -25,6 +26,11 @@ def parseSel : List String → Option (Sel × List String)
   | "w" :: r => some (.whole, r)
   | "i" :: k :: r => do some (.idx (← parseInt k), r)
   | "s" :: a :: b :: r => do some (.slice (← optI a) (← optI b), r)
+  | "st" :: a :: b :: c :: r => do some (.strided (← optI a) (← optI b) (← parseInt c), r)
+  | "pk" :: n :: r => do
+      let n ← parseNat n
+      let ks ← (r.take n).mapM parseInt
+      if (r.take n).length = n then some (.pick ks, r.drop n) else none
   | _ => none
 
 partial def parseEx : List String → Option (Ex Float × List String)
@@ -43,6 +49,7 @@ partial def parseEx : List String → Option (Ex Float × List String)
   | "abs" :: r => un .abs r | "sign" :: r => un .sign r | "heav" :: r => un .heav r | "not" :: r => un .not r
   | "in3" :: r => do let (a, r) ← parseEx r; let (b, r) ← parseEx r; let (c, r) ← parseEx r; some (.in3 a b c, r)
   | "sat" :: r => do let (a, r) ← parseEx r; let (b, r) ← parseEx r; let (c, r) ← parseEx r; some (.sat a b c, r)
+  | "matvec" :: q :: c :: r => do let (a, r) ← parseEx r; some (.matvec (← parseNat q) (← parseNat c) a, r)
   | "awu" :: r => do
       let (a, r) ← parseEx r; let (b, r) ← parseEx r; let (c, r) ← parseEx r; let (d, r) ← parseEx r
       some (Generated.awuRule fF a b c d, r)
